@@ -178,7 +178,16 @@ def comptime_case(key, decls, items, ret, w, signed, is_bool, meta):
     else:
         body.append("    " + print_call("r[i]", ret, w, signed))
     body += ["    i += 1;", "}"]
-    return Case(key, "\n".join(body), "".join(e for _, e in items), decls, meta=meta)
+    exp = "".join(e for _, e in items)
+    # and scalar results: a block whose own type is the result type (the scalar read-back path of the comptime evaluator,
+    # one per width), for the tuples with the most extreme results
+    picks = sorted(range(n), key=lambda k: (len(items[k][1]), items[k][1]))[-3:] + list(range(min(2, n)))
+    for j, k in enumerate(dict.fromkeys(picks)):
+        call, e = items[k]
+        body.append(f"s{j} : {ret} : comptime {{ {call} }};")
+        body.append("pb(s%d);" % j if is_bool else print_call(f"s{j}", ret, w, signed))
+        exp += e
+    return Case(key, "\n".join(body), exp, decls, meta=meta)
 
 
 # ----------------------------------------------------------------------------------------------
@@ -451,7 +460,7 @@ def run(tier, seed):
     started = time.time()
     quick = tier == "quick"
     runner = core.Runner("c08", batch_size=12, prelude=core.PRELUDE + HELPERS)
-    types = [t for t in INT_TYPES if quick is False or t[1] in (8, 32, 64, 128)]
+    types = list(INT_TYPES)  # every width in both tiers (a seeded change that only touched 16-bit comptime results slipped through the 8/32/64/128 quick selection)
     cases = int_cases(types, comptime=True) + float_cases() + cast_cases(INT_TYPES)
     optional = implicit_cases(INT_TYPES)
     evaluations = sum(c.expected.count("\n") for c in cases)
